@@ -217,9 +217,11 @@ def api_job(job):
     fam, lo, hi, seed = job[:4]
     acc = Acc()
     items = job[4] if len(job) > 4 else [(k, None if (fam != "ES" or k < 8) else (k * 11) % 256) for k in range(lo, hi)]
-    for k, es_len in items:
+    # every second target is ALSO used the way an application that builds the object itself may use it: no read_device_info() first
+    items = [(k, e, ni) for (k, e) in items for ni in ((False, True) if k % 2 == 0 else (False,))]
+    for k, es_len, no_info in items:
         inv, sim = make_target(fam, k, seed, es_len=es_len)
-        case = {"path": "api", "family": fam, "image": k, "seed": seed, "es_len": es_len}
+        case = {"path": "api", "family": fam, "image": k, "seed": seed, "es_len": es_len, "no_info": no_info}
 
         def call(name, coro, single=False):
             acc.case()
@@ -241,7 +243,10 @@ def api_job(job):
             return None
 
         acc.cls("api|%s|%s" % (fam, type(inv._protocol).__name__))
-        call("read_device_info", inv.read_device_info())
+        if not no_info:
+            call("read_device_info", inv.read_device_info())
+        else:
+            acc.cls("api|%s|no-device-info" % fam)
         d = call("read_runtime_data", inv.read_runtime_data())
         if d is not None:
             want = {s.id_ for s in inv.sensors()}
